@@ -19,7 +19,7 @@ Events == LET raw == ndJsonDeserialize(EventFile) IN {raw[j] : j \in DOMAIN raw}
 
 TInit ==
   /\ ev \in Events
-  /\ pc = "query" /\ hist = ev.hist /\ nac = ev.nac /\ code \in {[gvReset |-> TRUE], [gvReset |-> FALSE]}
+  /\ pc = "query" /\ hist = ev.hist /\ nac = ev.nac /\ fac = ev.fac /\ code \in {[gvReset |-> TRUE], [gvReset |-> FALSE]}
   /\ k = 1 /\ gvObj = FALSE /\ gvPert = 0 /\ dmDir = 0
   /\ hQp = 0 /\ hMesh = 0 /\ hBand = 0 /\ res = <<>> /\ reread = [qp |-> 0, mesh |-> 0, band |-> 0]
 TNext == Next /\ UNCHANGED ev
